@@ -7,8 +7,8 @@ from harness.common import cz, cq, cnat, cbool, clist, ctup, cres, import_aa, fr
 ID = "C06"
 GEN = []
 PROPS = "Props/C06.v"
-COQ_CHECK = ("Model.C06", "check")
-COQ_FALLBACK = ("Model.C06", "spec_ok")
+COQ_CHECK = ("Model.C06h", "hcheck")
+COQ_FALLBACK = ("Model.C06h", "hspec_ok")
 COQ_IMPORTS = ""
 SHARD = 45
 MARGIN = F(1, 10 ** 9)
@@ -25,11 +25,27 @@ RULE = ("masks up to 6x6 with 1..10 unmasked pixels (densities 0.15-0.9, single 
         "aa.mesh.Delaunay().mapper_grids_from + aa.Mapper; each mapper is observed at pix_sub_weights, mapping_matrix, unique_mappings and "
         "neighbors; (d) util-level mapping_matrix_from / data_slim_to_pixelization_unique_from on arbitrary index/weight arrays "
         "(repeated source pixels, signed weights, zero sizes, out-of-range indices); (e) slim_for_sub_slim for masks x sub-size maps; "
-        "(f) rectangular_neighbors_from for every shape 2..9 x 2..9 (quick) / 2..16 (thorough) via the util and Mesh2DRectangular.neighbors. "
+        "(f) rectangular_neighbors_from for every shape 2..9 x 2..9 (quick) / 2..16 (thorough) via the util and Mesh2DRectangular.neighbors; "
+        "(g) HISTORIES on one mapper object carrying an adapt image and an AdaptiveBrightness regularization (rectangular or Delaunay, up to 5 "
+        "image pixels): a random sequence over {pix_sub_weights, the three per-field accessors, mapping_matrix, unique_mappings, neighbors, "
+        "pixel_signals_from(scale 0..3), regularization_weights_from, regularization_matrix (the mapper's own and other coefficients)} with 60% of "
+        "the histories asking for the signals BEFORE anything is cached, every observable read again at the end after further signal queries, "
+        "1..4 other public calls interleaved as perturbers (data_weight_total_for_pix_from, mapped_to_source_from, sub_slim_indexes_for_pix_index(_arr), "
+        "pix_indexes_for_slim_indexes, edge_pixel_list, interpolated_array_from, regularization matrices of Constant / ConstantZeroth / "
+        "BrightnessZeroth / ConstantSplit / AdaptiveBrightnessSplit / GaussianKernel), every array a method hands back overwritten by the caller, "
+        "EVERY observation of the history compared with the model and the specification inside Coq, a closing sweep re-reading all observables, "
+        "and the arrays handed to the mapper compared with their snapshots; in 35% of the histories a SECOND mapper over the same mask / "
+        "over-sampler (for Delaunay half of the time the same mesh object) with a different source plane and adapt image is interleaved "
+        "call by call; adapt images with exact zeros, one-hot, all-equal, and scaled by 2^-40 / 2^30. "
+        "All mapper streams: the source grid is a fresh Grid2DIrregular, one derived by arithmetic (0.5 * doubled grid) or the over-sampler's "
+        "own sub-pixel grid plus a deflection; a quarter of the exact rectangular and of the Delaunay cases have the whole source plane scaled "
+        "by 2^-30, 2^-10 or 2^20; a third of the Delaunay cases put data points 2^-8..2^-26 away from a vertex or the midpoint of two vertices "
+        "(tiny non-zero weights); every fresh mapper is read twice (and through the per-field accessors) and its inputs are compared with snapshots. "
         "Non-trivial = more than one source pixel receives flux; distinct = distinct JSON input.")
 EXHAUSTIVE = {"quick": "rectangular neighbour arrays: every mesh shape H, W in 2..9",
               "thorough": "rectangular neighbour arrays: every mesh shape H, W in 2..16"}
-TRUSTED = ["hand-written Gallina model coq/Model/C06.v, tied to /repo by this correspondence run (comparison evaluated inside Coq by vm_compute, "
+TRUSTED = ["hand-written Gallina model coq/Model/C06.v + coq/Model/C06h.v (history layer: pixel signals, adaptive-brightness regularization, "
+           "cache state machine), tied to /repo by this correspondence run (comparison evaluated inside Coq by vm_compute, "
            "exact on the dyadic streams, |diff| <= 1e-9 where a division by 3/5/... or by a triangle area is involved)",
            "scipy.spatial.Delaunay (qhull) is an oracle: simplices / find_simplex / vertex_neighbor_vertices are inputs of the model; their contract "
            "(reported simplex contains the point, -1 only outside every simplex, non-degenerate simplices, neighbour lists = edges of the simplices) "
@@ -44,7 +60,7 @@ ASSUMPTIONS = ["real arithmetic (no rounding): theorems over R; correspondence o
 SKIPPED = {"in_band": 0}
 TALLY = {"rect_points": 0, "rect_points_exactly_on_a_cell_boundary": 0, "rect_points_in_last_row_or_column": 0,
          "del_points": 0, "del_points_outside_hull": 0, "del_points_on_an_edge_or_vertex": 0, "float_sub_size_cases": 0,
-         "non_square_meshes": 0, "sub_sizes": {}}
+         "non_square_meshes": 0, "sub_sizes": {}, "source_grid_kinds": {}, "coordinate_magnitudes": {"<1e-6": 0, "order_1": 0, ">1e4": 0}}
 def extra_evidence():
     return {"skipped_in_decision_band": SKIPPED["in_band"], "decision_margin": "1e-9 cell widths", "distribution": TALLY}
 
@@ -124,14 +140,20 @@ def fit_extent(rng, vals, n):
         return None
     return vals, b
 
-def gen_rect(rng, mode, maxn):
-    m = rand_mask(rng, maxn)
-    n = sum(1 for r in m for b in r if not b)
-    subs = [rng.choice([1, 2, 4] if mode == "exact" else [1, 2, 3, 4]) for _ in range(n)]
-    if rng.random() < 0.3: subs = [rng.choice([1, 2])] * n
-    while sum(s * s for s in subs) > 60: subs[subs.index(max(subs))] = 1
+SRC_KINDS = ["plain", "plain", "scaled", "osg"]
+
+def gen_rect(rng, mode, maxn, like=None, cap=60):
+    """like: a previous draw whose mask / sub-sizes / mesh shape are kept (a second, different source plane for the same data)"""
+    if like is None:
+        m = rand_mask(rng, maxn)
+        n = sum(1 for r in m for b in r if not b)
+        subs = [rng.choice([1, 2, 4] if mode == "exact" else [1, 2, 3, 4]) for _ in range(n)]
+        if rng.random() < 0.3: subs = [rng.choice([1, 2])] * n
+        while sum(s * s for s in subs) > cap: subs[subs.index(max(subs))] = 1
+        shape = rng.choice([(3, 3), (3, 4), (4, 3), (3, 5), (5, 3), (4, 4), (4, 6), (6, 4), (5, 5), (3, 7), (6, 7)])
+    else:
+        m, subs, shape = like["m"], like["subs"], tuple(like["shape"])
     pts = distort(rng, sub_centres(m, subs))
-    shape = rng.choice([(3, 3), (3, 4), (4, 3), (3, 5), (5, 3), (4, 4), (4, 6), (6, 4), (5, 5), (3, 7), (6, 7)])
     if mode == "exact":
         if len(pts) < 2: return None
         ys, xs = [p[0] for p in pts], [p[1] for p in pts]
@@ -149,8 +171,11 @@ def gen_rect(rng, mode, maxn):
     else:
         # degenerate extents (a single point, all points on one line) are kept: the mesh is then 2e-8 wide on that axis
         buf = BUF_DEFAULT
-    return {"op": "rect", "mode": mode, "m": m, "subs": subs, "grid": [[S(p[0]), S(p[1])] for p in pts],
-            "shape": list(shape), "buffer": S(buf), "fsub": rng.random() < 0.3}
+    # magnitudes: the whole source plane (and the buffer) scaled by a power of two (exact), down to ~1e-9 and up to ~1e6
+    sc = F(2) ** (rng.choice([-30, -10, 20]) if (mode == "exact" and rng.random() < 0.25) else 0)
+    return {"op": "rect", "mode": mode, "m": m, "subs": subs, "grid": [[S(p[0] * sc), S(p[1] * sc)] for p in pts],
+            "shape": list(shape), "buffer": S(buf * sc if mode == "exact" else buf), "fsub": rng.random() < 0.3,
+            "src": rng.choice(SRC_KINDS)}
 
 def cross(a, b, c): return (b[0] - a[0]) * (c[1] - a[1]) - (b[1] - a[1]) * (c[0] - a[0])
 def incircle(a, b, c, d):
@@ -166,16 +191,25 @@ def general_position(P):
         if incircle(a, b, c, d) == 0: return False
     return True
 
-def gen_del(rng, maxn):
-    m = rand_mask(rng, maxn)
-    n = sum(1 for r in m for b in r if not b)
-    subs = [rng.choice([1, 2, 4, 3]) for _ in range(n)]
-    if rng.random() < 0.3: subs = [rng.choice([1, 2])] * n
-    while sum(s * s for s in subs) > 50: subs[subs.index(max(subs))] = 1
+def gen_del(rng, maxn, like=None, cap=50, kmax=12):
+    if like is None:
+        m = rand_mask(rng, maxn)
+        n = sum(1 for r in m for b in r if not b)
+        subs = [rng.choice([1, 2, 4, 3]) for _ in range(n)]
+        if rng.random() < 0.3: subs = [rng.choice([1, 2])] * n
+        while sum(s * s for s in subs) > cap: subs[subs.index(max(subs))] = 1
+    else:
+        m, subs = like["m"], like["subs"]
     pts = distort(rng, sub_centres(m, subs))
+    if like is not None and like.get("points"):
+        # the same vertices (the same mesh object is shared by the two mappers): only the data points differ
+        sc = F(like["sc"])
+        return {"op": "del", "m": m, "subs": subs, "grid": [[S(p[0] * sc), S(p[1] * sc)] for p in pts], "points": like["points"],
+                "fsub": like["fsub"], "src": rng.choice(SRC_KINDS), "sc": like["sc"]}
     ys, xs = [p[0] for p in pts], [p[1] for p in pts]
     ylo, yhi, xlo, xhi = min(ys), max(ys), min(xs), max(xs)
-    k = rng.randint(5, 12)
+    k = rng.randint(5, kmax)
+    sc = F(2) ** (rng.choice([-30, -10, 20]) if rng.random() < 0.25 else 0)
     for _ in range(200):
         # vertices on a 1/4 lattice in a box that is sometimes smaller than the data (points outside the hull)
         sh = rng.choice([F(-1), F(0), F(1), F(2)])
@@ -183,8 +217,19 @@ def gen_del(rng, maxn):
               snap(F(rng.randint(int((xlo - sh) * 4), max(int((xlo - sh) * 4) + 8, int((xhi + sh) * 4))), 4), 4)) for _ in range(k)]
         if rng.random() < 0.3 and pts: V[0] = pts[rng.randrange(len(pts))]          # a data point sitting on a vertex
         if general_position(V):
-            return {"op": "del", "m": m, "subs": subs, "grid": [[S(p[0]), S(p[1])] for p in pts],
-                    "points": [[S(p[0]), S(p[1])] for p in V], "fsub": rng.random() < 0.3}
+            pts = list(pts)
+            if rng.random() < 0.35:
+                # data points a hair away from a vertex / from the midpoint of two vertices (often an edge): interpolation
+                # weights as small as 2^-26 that are NOT zero
+                for _ in range(rng.randint(1, 2)):
+                    a, b, q = rng.choice(V), rng.choice(V), rng.choice(pts)
+                    if rng.random() < 0.5: b = a
+                    c = ((a[0] + b[0]) / 2, (a[1] + b[1]) / 2)
+                    e = F(1, 2 ** rng.choice([8, 14, 20, 26]))
+                    pts[rng.randrange(len(pts))] = (c[0] + (q[0] - c[0]) * e, c[1] + (q[1] - c[1]) * e)
+            return {"op": "del", "m": m, "subs": subs, "grid": [[S(p[0] * sc), S(p[1] * sc)] for p in pts],
+                    "points": [[S(p[0] * sc), S(p[1] * sc)] for p in V], "fsub": rng.random() < 0.3, "src": rng.choice(SRC_KINDS),
+                    "sc": S(sc)}
     return None
 
 def gen_matrix(rng):
@@ -216,6 +261,71 @@ def gen_unique(rng):
     wt = [[S(F(rng.randint(-8, 8), 4)) if k < sizes[s] else "0" for k in range(width)] for s in range(Sn)]
     return {"op": "unique", "mp": mp, "sz": sizes, "wt": wt, "P": P, "subs": subs}
 
+DY = [F(0), F(1, 2), F(1), F(3, 2), F(2)]
+OBS = ["psw", "fields", "mm", "uq", "nb"]
+
+def gen_adapt(rng, n):
+    style = rng.choice(["random", "random", "onehot", "equal", "zeros_some"])
+    if style == "onehot": a = [F(0)] * n; a[rng.randrange(n)] = F(rng.randint(1, 8), 4)
+    elif style == "equal": a = [F(rng.randint(1, 8), 4)] * n
+    else: a = [F(rng.randint(0 if style == "zeros_some" else 1, 8), 4) for _ in range(n)]
+    if max(a) == 0: a[rng.randrange(n)] = F(1)
+    sc = F(2) ** rng.choice([0, 0, 0, -40, 30])           # tiny / huge images (the signals are relative to the maximum)
+    return [S(x * sc) for x in a]
+
+def gen_hist(rng, kind):
+    """a history of calls on ONE mapper object (or two mappers over the same data, interleaved)"""
+    maxn = 5
+    base = None
+    for _ in range(20):
+        if kind == "del": base = gen_del(rng, maxn, cap=24, kmax=9)
+        else: base = gen_rect(rng, rng.choice(["exact", "public"]), maxn, cap=24)
+        if base is not None and kind == "rect" and base["shape"][0] * base["shape"][1] > 20: base = None
+        if base is not None: break
+    if base is None: return None
+    twin, share = None, False
+    if rng.random() < 0.35:
+        if kind == "del":
+            share = rng.random() < 0.5
+            twin = gen_del(rng, maxn, like=base if share else {"m": base["m"], "subs": base["subs"]}, kmax=9)
+        else:
+            twin = gen_rect(rng, base["mode"], maxn, like=base)
+        if twin is not None: twin["fsub"] = base["fsub"]
+    nm = 2 if twin else 1
+    n = len(base["subs"])
+    regp = [S(rng.choice(DY)), S(rng.choice(DY)), rng.choice([0, 1, 1, 2, 3])]
+    def regargs(): return regp if rng.random() < 0.6 else [S(rng.choice(DY)), S(rng.choice(DY)), rng.choice([0, 1, 2])]
+    def signal_op():
+        r = rng.random()
+        if r < 0.5: return ["sig", rng.choice([0, 1, 1, 2, 3])]
+        return (["regm"] if r < 0.8 else ["regw"]) + regargs()
+    def rand_op():
+        r = rng.random()
+        if r < 0.45: return signal_op()
+        if r < 0.7: return ["aux", rng.choice(AUX)]
+        return [rng.choice(OBS)]
+    lists = []
+    for who in range(nm):
+        pre = [rand_op() for _ in range(rng.randint(0, 4))]
+        if rng.random() < 0.6: pre.insert(0, signal_op())                         # the signals are asked for before anything is cached
+        tail = [rng.choice(["psw", "fields"]), "mm", "uq", "nb"]; rng.shuffle(tail)
+        tail = [[t] for t in tail]
+        for _ in range(rng.randint(0, 2)): tail.insert(rng.randrange(len(tail)), rand_op() if rng.random() < 0.3 else signal_op())
+        ops, seen = [], {}
+        for op in pre + tail:                                                      # at most two readings of each observable
+            key = "psw" if op[0] in ("psw", "fields") else op[0]
+            if op[0] in OBS:
+                if seen.get(key, 0) >= 2: continue
+                seen[key] = seen.get(key, 0) + 1
+            ops.append(op)
+        for _ in range(rng.randint(1, 4)): ops.insert(rng.randrange(len(ops) + 1), ["aux", rng.choice(AUX)])
+        lists.append([[who] + op for op in ops])
+    sched = []
+    while any(lists):
+        l = rng.choice([x for x in lists if x]); sched.append(l.pop(0))
+    return {"op": "hist", "base": base, "twin": twin, "share_mesh": share, "adapt": [gen_adapt(rng, n) for _ in range(nm)],
+            "adapt_derived": rng.random() < 0.3, "reg": regp, "sched": sched}
+
 def gen_inputs(tier, rng):
     big = tier == "thorough"
     top = 16 if big else 9
@@ -233,40 +343,255 @@ def gen_inputs(tier, rng):
             yield {"op": "sfs", "m": m, "subs": [rng.choice([1, 2, 3, 4]) for _ in range(n)], "via": via}
     for _ in range(2500 if big else 150): yield gen_matrix(rng)
     for _ in range(2500 if big else 150): yield gen_unique(rng)
-    nmap = 500 if big else 45
+    nmap = 500 if big else 36
     maxn = 10 if big else 7
     for i in range(nmap):
         for g in (gen_rect(rng, "exact", maxn), gen_rect(rng, "public", maxn), gen_del(rng, maxn)):
             if g is not None: yield g
+    for i in range(400 if big else 36):
+        g = gen_hist(rng, "del" if i % 3 else "rect")
+        if g is not None: yield g
 
 # ----------------------------------------------------------------------------- running
-def build_common(aa, inp):
+def snapshot(*arrs):
+    return [None if a is None else np.array(a, copy=True) for a in arrs]
+def unchanged(snap, *arrs):
+    return all((a is None and b is None) or (np.asarray(b).shape == a.shape and np.array_equal(a, np.asarray(b), equal_nan=True))
+               for a, b in zip(snap, arrs))
+
+def source_grid(aa, osr, grid, kind, subs):
+    """the source-plane data grid as the library would hand it over: a fresh Grid2DIrregular, or one DERIVED by arithmetic
+    (halving a doubled grid; the over-sampler's own sub-pixel grid plus a deflection, which is what a ray-tracing caller does)"""
+    vals = np.array([[float(p[0]), float(p[1])] for p in grid])
+    osg = np.array(osr.over_sampled_grid) if kind == "osg" else None
+    if kind == "osg" and np.array_equal(osg + (vals - osg), vals):      # the deflection reproduces the target exactly in doubles
+        src = osr.over_sampled_grid + (vals - osg)
+    elif kind == "scaled":
+        src = aa.Grid2DIrregular(values=2.0 * vals) * 0.5
+    else:
+        src = aa.Grid2DIrregular(values=vals)
+    assert np.array_equal(np.array(src), vals)
+    return src
+
+def sub_size_map(aa, inp, mask):
+    """the per-pixel sub-size map: slim values, or the same map handed over in its native 2D layout (zeros under the mask)"""
+    subs = [float(s) if inp.get("fsub") else int(s) for s in inp["subs"]]
+    if inp.get("src") == "scaled":
+        it = iter(subs)
+        return aa.Array2D(values=[[0 if b else next(it) for b in r] for r in inp["m"]], mask=mask)
+    return aa.Array2D(values=subs, mask=mask)
+
+def build_common(aa, inp, mask=None, osr=None):
     m = inp["m"]; subs = inp["subs"]
     grid = [(F(p[0]), F(p[1])) for p in inp["grid"]]
-    mask = aa.Mask2D(mask=np.array(m, dtype=bool), pixel_scales=1.0)
-    # "fsub": the sub-size map is stored as floats, which is what OverSamplingUniform.from_radial_bins / from_adaptive_scheme produce
-    ss = aa.Array2D(values=[float(s) if inp.get("fsub") else int(s) for s in subs], mask=mask)
-    osr = aa.OverSamplerUniform(mask=mask, sub_size=ss)
+    if mask is None:
+        mask = aa.Mask2D(mask=np.array(m, dtype=bool), pixel_scales=1.0)
+        # "fsub": the sub-size map is stored as floats, which is what OverSamplingUniform.from_radial_bins / from_adaptive_scheme produce
+        osr = aa.OverSamplerUniform(mask=mask, sub_size=sub_size_map(aa, inp, mask))
     assert osr.sub_total == len(grid) and len(osr.over_sampled_grid) == len(grid)
-    src = aa.Grid2DIrregular(values=[[float(p[0]), float(p[1])] for p in grid])
+    src = source_grid(aa, osr, grid, inp.get("src", "plain"), subs)
     return m, subs, grid, mask, osr, src
 
-def observe(mapper):
+def obs_psw(mapper):
     psw = mapper.pix_sub_weights
-    psw_o = (im(psw.mappings), [int(x) for x in psw.sizes], fm(psw.weights))
-    M = fm(mapper.mapping_matrix)
+    return (im(psw.mappings), [int(x) for x in psw.sizes], fm(psw.weights))
+def obs_fields(mapper):
+    return (im(mapper.pix_indexes_for_sub_slim_index), [int(x) for x in mapper.pix_sizes_for_sub_slim_index],
+            fm(mapper.pix_weights_for_sub_slim_index))
+def obs_mm(mapper): return fm(mapper.mapping_matrix)
+def obs_uq(mapper):
     um = mapper.unique_mappings
-    uq = (im(um.data_to_pix_unique), fm(um.data_weights), [int(x) for x in um.pix_lengths])
+    return (im(um.data_to_pix_unique), fm(um.data_weights), [int(x) for x in um.pix_lengths])
+def obs_nb(mapper):
     nb = mapper.neighbors
-    nb_o = (im(np.asarray(nb)), [int(x) for x in nb.sizes])
-    return psw_o, M, uq, nb_o
+    return (im(np.asarray(nb)), [int(x) for x in nb.sizes])
+
+def observe(mapper):
+    return obs_psw(mapper), obs_mm(mapper), obs_uq(mapper), obs_nb(mapper)
 
 def describe(psw, M):
     return {"mappings": psw[0][:6], "sizes": psw[1][:6], "weights": [[str(x) for x in r] for r in psw[2][:6]],
             "mapping_matrix": [[str(x) for x in r] for r in M[:4]]}
 
+def make_mapper(aa, inp, mask=None, osr=None, adapt=None, reg=None, mesh=None):
+    """-> dict with the mapper, the model-side inputs and the arrays the caller handed over (to check they are left alone)"""
+    m, subs, grid, mask, osr, src = build_common(aa, inp, mask, osr)
+    d = {"m": m, "subs": subs, "grid": grid, "mask": mask, "osr": osr, "src": src, "kind": inp["op"]}
+    if inp["op"] == "rect":
+        shape = tuple(inp["shape"]); buf = F(inp["buffer"])
+        if inp["mode"] == "exact":
+            mesh = aa.Mesh2DRectangular.overlay_grid(shape_native=shape, grid=np.array(src), buffer=float(buf))
+            mg = aa.MapperGrids(mask=mask, source_plane_data_grid=src, source_plane_mesh_grid=mesh, adapt_data=adapt)
+        else:
+            mg = aa.mesh.Rectangular(shape=shape).mapper_grids_from(mask=mask, source_plane_data_grid=src, adapt_data=adapt)
+        d.update(shape=shape, buf=buf, mesh_in=None)
+    else:
+        V = [(F(p[0]), F(p[1])) for p in inp["points"]]
+        if mesh is None:
+            vin = aa.Grid2DIrregular(values=[[float(p[0]), float(p[1])] for p in V])
+            if inp.get("src") == "scaled": vin = aa.Grid2DIrregular(values=2.0 * np.array(vin)) * 0.5
+            mg = aa.mesh.Delaunay().mapper_grids_from(mask=mask, source_plane_data_grid=src, source_plane_mesh_grid=vin,
+                                                      adapt_data=adapt)
+        else:
+            vin = None
+            mg = aa.MapperGrids(mask=mask, source_plane_data_grid=src, source_plane_mesh_grid=mesh, adapt_data=adapt)
+        d.update(V=V, mesh_in=vin)
+    d["mg"] = mg
+    d["mapper"] = aa.Mapper(mapper_grids=mg, over_sampler=osr, regularization=reg)
+    d["adapt"] = adapt
+    d["held"] = [src, d["mesh_in"], adapt, osr.sub_size, mask]
+    d["snap"] = snapshot(*d["held"])
+    return d
+
+def oracle(d):
+    dl = d["mapper"].delaunay
+    indptr, indices = dl.vertex_neighbor_vertices
+    return (im(dl.simplices), [int(x) for x in dl.find_simplex(np.array(d["src"]))], [int(x) for x in indptr], [int(x) for x in indices])
+
+def in_band(grid, shape, buf):
+    """public rectangular pipeline: every cell-boundary decision must be at a margin (exact rational position in cell units)"""
+    ys, xs = [p[0] for p in grid], [p[1] for p in grid]
+    top, left = max(ys) + buf, min(xs) - buf
+    h, w = (max(ys) - min(ys) + 2 * buf) / shape[0], (max(xs) - min(xs) + 2 * buf) / shape[1]
+    return any(abs(u - round(u)) < MARGIN for (y, x) in grid for u in ((top - y) / h, (x - left) / w))
+
+# ---- histories on one mapper object
+def chop(op):
+    k = op[0]
+    if k == "sig": return f"(OSig {cnat(op[1])})"
+    if k in ("regw", "regm"): return f"({'ORegW' if k == 'regw' else 'ORegM'} {cq(F(op[1]))} {cq(F(op[2]))} {cnat(op[3])})"
+    return {"psw": "OPsw", "fields": "OFields", "mm": "OMat", "uq": "OUq", "nb": "ONb"}[k]
+def chobs(k, o):
+    if k in ("psw", "fields"): return f"(BPsw {cpsw(o)})"
+    if k in ("mm", "regm"): return f"(BMat (Ok {cqm(o)}))"
+    if k == "uq": return f"(BUq (Ok {cuq(o)}))"
+    if k == "nb": return f"(BNb {cnb(o)})"
+    return f"(BVec (Ok {cqv(o)}))"
+
+def scribble(a):
+    """the caller overwrites an array a method handed back (it must be the caller's own copy)"""
+    try:
+        a = np.asarray(a)
+        if a.flags.writeable and a.size: a[...] = -7
+    except Exception:
+        pass
+
+AUX = ["dwt", "m2s", "ssip", "ssipa", "pifs", "edge", "interp", "reg:Constant", "reg:ConstantZeroth", "reg:BrightnessZeroth",
+       "reg:ConstantSplit", "reg:AdaptiveBrightnessSplit", "reg:GaussianKernel"]
+
+def do_aux(aa, d, name):
+    """other public calls on the mapper; their values are not C06's subject, they must leave the mapper's C06 observables alone"""
+    mp = d["mapper"]
+    if name == "dwt": scribble(mp.data_weight_total_for_pix_from())
+    elif name == "m2s": scribble(mp.mapped_to_source_from(array=d["adapt"]))
+    elif name == "ssip": mp.sub_slim_indexes_for_pix_index
+    elif name == "ssipa": [scribble(x) for x in mp.sub_slim_indexes_for_pix_index_arr]
+    elif name == "pifs": mp.pix_indexes_for_slim_indexes(pix_indexes=[0, mp.pixels - 1])
+    elif name == "edge": mp.edge_pixel_list
+    elif name == "interp": mp.interpolated_array_from(values=np.arange(mp.pixels, dtype=float), shape_native=(3, 4))
+    elif name.startswith("reg:"):
+        cls = name[4:]
+        if "Split" in cls and d["kind"] == "rect": return
+        R = {"Constant": lambda: aa.reg.Constant(coefficient=1.5), "ConstantZeroth": lambda: aa.reg.ConstantZeroth(1.0, 0.5),
+             "BrightnessZeroth": lambda: aa.reg.BrightnessZeroth(coefficient=1.0, signal_scale=1.0),
+             "ConstantSplit": lambda: aa.reg.ConstantSplit(coefficient=1.0),
+             "AdaptiveBrightnessSplit": lambda: aa.reg.AdaptiveBrightnessSplit(1.0, 0.5, 1.0),
+             "GaussianKernel": lambda: aa.reg.GaussianKernel(coefficient=1.0, scale=1.0)}[cls]()
+        scribble(R.regularization_weights_from(linear_obj=mp))
+        scribble(R.regularization_matrix_from(linear_obj=mp))
+
+def do_step(aa, d, op):
+    mp = d["mapper"]; k = op[0]
+    if k == "psw": return obs_psw(mp)
+    if k == "fields": return obs_fields(mp)
+    if k == "mm": return obs_mm(mp)
+    if k == "uq": return obs_uq(mp)
+    if k == "nb": return obs_nb(mp)
+    if k == "sig":
+        r = mp.pixel_signals_from(signal_scale=float(op[1])); o = [frac(x) for x in r]; scribble(r); return o
+    own = d["regp"] == [op[1], op[2], op[3]]
+    reg = mp.regularization if own else aa.reg.AdaptiveBrightness(inner_coefficient=float(F(op[1])), outer_coefficient=float(F(op[2])),
+                                                                  signal_scale=float(op[3]))
+    if k == "regw":
+        r = reg.regularization_weights_from(linear_obj=mp); o = [frac(x) for x in r]; scribble(r); return o
+    if k == "regm":
+        r = mp.regularization_matrix if own else reg.regularization_matrix_from(linear_obj=mp)
+        o = fm(r); scribble(r); return o
+    raise ValueError(k)
+
+def run_hist(aa, inp):
+    bases = [inp["base"]] + ([inp["twin"]] if inp.get("twin") else [])
+    if any(b["op"] == "rect" and b["mode"] == "public" and in_band([(F(p[0]), F(p[1])) for p in b["grid"]], tuple(b["shape"]), F(b["buffer"]))
+           for b in bases):
+        SKIPPED["in_band"] += 1
+        return {"coq": None, "out": "skipped: a point within the decision band of a cell boundary", "py_ok": None,
+                "nontrivial": False, "kind": "hist:skipped_in_band"}
+    regp = inp["reg"]
+    reg = aa.reg.AdaptiveBrightness(inner_coefficient=float(F(regp[0])), outer_coefficient=float(F(regp[1])), signal_scale=float(regp[2]))
+    ds = []
+    for j, b in enumerate(bases):
+        first = ds[0] if ds else None
+        mask = first["mask"] if first else None
+        av = np.array([float(F(x)) for x in inp["adapt"][j]])
+        if mask is None: mask = aa.Mask2D(mask=np.array(b["m"], dtype=bool), pixel_scales=1.0)
+        # adapt image: a fresh Array2D or one derived by arithmetic
+        adapt = aa.Array2D(values=2.0 * av, mask=mask) * 0.5 if inp.get("adapt_derived") else aa.Array2D(values=av, mask=mask)
+        assert np.array_equal(np.array(adapt), av)
+        if first is None:
+            osr = aa.OverSamplerUniform(mask=mask, sub_size=sub_size_map(aa, b, mask))
+        else:
+            osr = first["osr"]
+        mesh = first["mg"].source_plane_mesh_grid if (first and b["op"] == "del" and inp.get("share_mesh")) else None
+        d = make_mapper(aa, b, mask=mask, osr=osr, adapt=adapt, reg=reg, mesh=mesh)
+        d["regp"] = regp; d["steps"] = []; d["advals"] = [F(x) for x in inp["adapt"][j]]
+        ds.append(d)
+    trace = []
+    for item in inp["sched"]:
+        who, op = item[0], item[1:]
+        d = ds[who if who < len(ds) else 0]
+        if op[0] == "aux":
+            do_aux(aa, d, op[1]); trace.append(f"{who}:aux:{op[1]}")
+        else:
+            o = do_step(aa, d, op)
+            d["steps"].append((op, o)); trace.append(f"{who}:{op[0]}")
+    cases = []
+    ok_inputs = True
+    py_bad = []
+    for d in ds:
+        if not unchanged(d["snap"], *d["held"]): ok_inputs = False
+        # closing sweep: whatever ran after the last reading of an observable, the object still answers the same
+        last = {}
+        for op, o in d["steps"]:
+            if op[0] in OBS: last["psw" if op[0] == "fields" else op[0]] = o
+        for k, f in (("psw", obs_psw), ("mm", obs_mm), ("uq", obs_uq), ("nb", obs_nb)):
+            if k in last and f(d["mapper"]) != last[k]:
+                py_bad.append(f"{k} read again at the end of the history differs from its previous reading on the same mapper object")
+        steps = clist([f"({chop(op)}, {chobs(op[0], o)})" for op, o in d["steps"]])
+        if d["kind"] == "rect":
+            tol = F(0) if d["mapper"] is not None and bases[ds.index(d)]["mode"] == "exact" else TOL
+            cases.append(f"(KHistRect {cq(tol)} {cq(TOL)} {cmask(d['m'])} {cnl(d['subs'])} {cpts(d['grid'])} "
+                         f"({cz(d['shape'][0])}, {cz(d['shape'][1])}) {cq(d['buf'])} {cqv(d['advals'])} {steps})")
+        else:
+            simplices, simplex_for, indptr, indices = oracle(d)
+            cases.append(f"(KHistDel {cq(TOL)} {cq(TOL)} {cmask(d['m'])} {cnl(d['subs'])} {cpts(d['grid'])} {cpts(d['V'])} {czm(simplices)} "
+                         f"{czl(simplex_for)} {czl(indptr)} {czl(indices)} {cqv(d['advals'])} {steps})")
+    TALLY["history_steps"] = TALLY.get("history_steps", 0) + len(inp["sched"])
+    TALLY["history_mappers"] = TALLY.get("history_mappers", 0) + len(ds)
+    firstop = next((t.split(":", 1)[1] for t in trace), "")
+    if not ok_inputs: py_bad.append("an array handed to the mapper (source grid / mesh grid / adapt_data / sub_size / mask) was modified")
+    return {"coq": cases[0], "extra_coq": cases[1:], "out": {"trace": trace, "inputs_left_unchanged": ok_inputs, "py_checks_failed": py_bad},
+            "py_ok": False if py_bad else None, "nontrivial": True, "detail": "; ".join(py_bad) or None,
+            "kind": "hist:" + bases[0]["op"] + (":twin" if len(ds) > 1 else "") + (":signals_first" if firstop.split(":")[0] in ("sig", "regw", "regm") else "")}
+
 def run_case(inp):
     aa = import_aa()
+    op = inp["op"]
+    if op == "hist": return run_hist(aa, inp)
+    r = run_case_base(aa, inp)
+    if r.get("coq"): r["coq"] = "(KBase " + r["coq"] + ")"
+    return r
+
+def run_case_base(aa, inp):
     op = inp["op"]
     if op == "rectnb":
         H, W = inp["H"], inp["W"]
@@ -329,32 +654,30 @@ def run_case(inp):
             out = ("raise", exn_name(e))
         coq = f"(KUnique {czm(mp)} {cnl(sz)} {cqm(wt)} {cnat(inp['P'])} {cnl(subs)} " + cres(out, cuq) + ")"
         return {"coq": coq, "out": str(out)[:300], "py_ok": None, "nontrivial": out[0] == "ok" and sum(sz) > 1, "kind": "unique:" + out[0]}
-    if op == "rect":
-        m, subs, grid, mask, osr, src = build_common(aa, inp)
-        shape = tuple(inp["shape"]); buf = F(inp["buffer"])
-        exact = inp["mode"] == "exact"
-        if not exact:
-            # every cell-boundary decision must be at a margin (exact rational computation of the position in cell units)
-            ys, xs = [p[0] for p in grid], [p[1] for p in grid]
-            top, left = max(ys) + buf, min(xs) - buf
-            h, w = (max(ys) - min(ys) + 2 * buf) / shape[0], (max(xs) - min(xs) + 2 * buf) / shape[1]
-            for (y, x) in grid:
-                for u in ((top - y) / h, (x - left) / w):
-                    if abs(u - round(u)) < MARGIN:
-                        SKIPPED["in_band"] += 1
-                        return {"coq": None, "out": "skipped: a point within the decision band of a cell boundary", "py_ok": None,
-                                "nontrivial": False, "kind": "rect:skipped_in_band"}
-        if exact:
-            mesh = aa.Mesh2DRectangular.overlay_grid(shape_native=shape, grid=np.array(src), buffer=float(buf))
-            mg = aa.MapperGrids(mask=mask, source_plane_data_grid=src, source_plane_mesh_grid=mesh)
-        else:
-            mg = aa.mesh.Rectangular(shape=shape).mapper_grids_from(mask=mask, source_plane_data_grid=src)
-        mapper = aa.Mapper(mapper_grids=mg, over_sampler=osr, regularization=None)
-        mesh = mg.source_plane_mesh_grid
-        mesh_o = [frac(mesh.pixel_scales[0]), frac(mesh.pixel_scales[1]), frac(mesh.origin[0]), frac(mesh.origin[1])]
+    if op in ("rect", "del"):
+        grid0 = [(F(p[0]), F(p[1])) for p in inp["grid"]]
+        if op == "rect" and inp["mode"] != "exact" and in_band(grid0, tuple(inp["shape"]), F(inp["buffer"])):
+            SKIPPED["in_band"] += 1
+            return {"coq": None, "out": "skipped: a point within the decision band of a cell boundary", "py_ok": None,
+                    "nontrivial": False, "kind": "rect:skipped_in_band"}
+        d = make_mapper(aa, inp)
+        mapper, m, subs, grid = d["mapper"], d["m"], d["subs"], d["grid"]
         psw, M, uq, nb = observe(mapper)
-        TALLY["rect_points"] += len(grid); TALLY["non_square_meshes"] += shape[0] != shape[1]
+        # the same object asked again (and through the per-field accessors) answers the same; the arrays handed in are left alone
+        again = observe(mapper)
+        py_bad = []
+        if again != (psw, M, uq, nb) or obs_fields(mapper) != psw: py_bad.append("a second reading of the same mapper object differs from the first")
+        if not unchanged(d["snap"], *d["held"]): py_bad.append("an array handed to the mapper was modified")
         TALLY["float_sub_size_cases"] += bool(inp.get("fsub"))
+        TALLY["source_grid_kinds"][inp.get("src", "plain")] = TALLY["source_grid_kinds"].get(inp.get("src", "plain"), 0) + 1
+        big = max(abs(c) for p in grid for c in p)
+        TALLY["coordinate_magnitudes"]["<1e-6" if big < F(1, 10 ** 6) else ">1e4" if big > 10 ** 4 else "order_1"] += 1
+    if op == "rect":
+        shape, buf = d["shape"], d["buf"]
+        exact = inp["mode"] == "exact"
+        mesh = d["mg"].source_plane_mesh_grid
+        mesh_o = [frac(mesh.pixel_scales[0]), frac(mesh.pixel_scales[1]), frac(mesh.origin[0]), frac(mesh.origin[1])]
+        TALLY["rect_points"] += len(grid); TALLY["non_square_meshes"] += shape[0] != shape[1]
         for sv in subs: TALLY["sub_sizes"][str(sv)] = TALLY["sub_sizes"].get(str(sv), 0) + 1
         ys, xs = [p[0] for p in grid], [p[1] for p in grid]
         h_, w_ = (max(ys) - min(ys) + 2 * buf) / shape[0], (max(xs) - min(xs) + 2 * buf) / shape[1]
@@ -366,26 +689,16 @@ def run_case(inp):
         coq = (f"(KRect {cq(tol)} {cmask(m)} {cnl(subs)} {cpts(grid)} ({cz(shape[0])}, {cz(shape[1])}) {cq(buf)} "
                f"{ctup([cq(x) for x in mesh_o])} {cpsw(psw)} {cqm(M)} {cuq(uq)} {cnb(nb)})")
         used = len({r[0] for r in psw[0]})
-        return {"coq": coq, "out": describe(psw, M), "py_ok": None, "nontrivial": used > 1,
-                "kind": "rect:" + inp["mode"] + (":float_sub_size" if inp.get("fsub") else "")}
+        return {"coq": coq, "out": describe(psw, M), "py_ok": False if py_bad else None, "detail": "; ".join(py_bad) or None,
+                "nontrivial": used > 1, "kind": "rect:" + inp["mode"] + (":float_sub_size" if inp.get("fsub") else "")}
     if op == "del":
-        m, subs, grid, mask, osr, src = build_common(aa, inp)
-        V = [(F(p[0]), F(p[1])) for p in inp["points"]]
-        mg = aa.mesh.Delaunay().mapper_grids_from(
-            mask=mask, source_plane_data_grid=src,
-            source_plane_mesh_grid=aa.Grid2DIrregular(values=[[float(p[0]), float(p[1])] for p in V]))
-        mapper = aa.Mapper(mapper_grids=mg, over_sampler=osr, regularization=None)
-        dl = mapper.delaunay
-        simplices = im(dl.simplices)
-        simplex_for = [int(x) for x in dl.find_simplex(np.array(src))]
-        indptr, indices = dl.vertex_neighbor_vertices
-        psw, M, uq, nb = observe(mapper)
+        V = d["V"]
+        simplices, simplex_for, indptr, indices = oracle(d)
         coq = (f"(KDel {cq(TOL)} {cmask(m)} {cnl(subs)} {cpts(grid)} {cpts(V)} {czm(simplices)} {czl(simplex_for)} "
-               f"{czl([int(x) for x in indptr])} {czl([int(x) for x in indices])} {cpsw(psw)} {cqm(M)} {cuq(uq)} {cnb(nb)})")
+               f"{czl(indptr)} {czl(indices)} {cpsw(psw)} {cqm(M)} {cuq(uq)} {cnb(nb)})")
         TALLY["del_points"] += len(grid); TALLY["del_points_outside_hull"] += sum(1 for t in simplex_for if t == -1)
         TALLY["del_points_on_an_edge_or_vertex"] += sum(1 for r, n in zip(psw[2], psw[1]) if n == 3 and any(x == 0 for x in r))
-        TALLY["float_sub_size_cases"] += bool(inp.get("fsub"))
         kinds = ("outside" if -1 in simplex_for else "") + ("inside" if any(s >= 0 for s in simplex_for) else "")
-        return {"coq": coq, "out": describe(psw, M), "py_ok": None, "nontrivial": len(grid) > 1,
-                "kind": "del:" + kinds + (":float_sub_size" if inp.get("fsub") else "")}
+        return {"coq": coq, "out": describe(psw, M), "py_ok": False if py_bad else None, "detail": "; ".join(py_bad) or None,
+                "nontrivial": len(grid) > 1, "kind": "del:" + kinds + (":float_sub_size" if inp.get("fsub") else "")}
     raise ValueError(op)
